@@ -415,7 +415,9 @@ def vasprun(cell, forces):
 @st.composite
 def fs_specs(draw, tier):
     return {"key": draw(keys), "natom": draw(st.integers(2, 4)), "interleaved": draw(st.booleans()),
-            "mode": draw(st.sampled_from(["ok", "ok", "shifted", "permuted", "wrong_disp", "sorted_like_poscar", "lammps_sorted", "lammps_cyclic", "lammps_shuffled"])), "fz": draw(st.booleans())}
+            "mode": draw(st.sampled_from(["ok", "ok", "shifted", "permuted", "wrong_disp", "sorted_like_poscar", "lammps_sorted", "lammps_cyclic", "lammps_shuffled", "wien2k_sym", "wien2k_sym"])), "fz": draw(st.booleans()),
+            "w2k": draw(st.sampled_from([("wurtzite", [[1, 1, 0], [0, 1, 0], [0, 0, 1]]), ("wurtzite", [[2, 0, 0], [0, 1, 0], [0, 0, 1]]), ("nacl", [[1, 1, 0], [0, 1, 0], [0, 0, 1]]),
+                                         ("nacl", [[1, 0, 0], [0, 1, 0], [0, 0, 1]]), ("rutile", [[1, 0, 0], [0, 1, 0], [1, 0, 1]]), ("hcp", [[2, 1, 0], [0, 2, 0], [0, 0, 1]])]))}
 
 
 def _force_sets_lammps(spec, cell, rng):
@@ -479,6 +481,70 @@ def _force_sets_lammps(spec, cell, rng):
     return Out(ok=True, nontrivial=spec["mode"] != "lammps_sorted", classes=["mode:" + spec["mode"], "accepted"])
 
 
+def _force_sets_wien2k(spec, rng):
+    """WIEN2k case.scf files carry positions and forces of the symmetry-INEQUIVALENT atoms only (forces as components along the
+    lattice vectors); phonopy expands them to all atoms of the displaced supercell."""
+    import contextlib
+    import io
+
+    from gen.crystals import PROTOS, build_crystal
+    from oracles.models import own_ops, perms_for_ops
+    from phonopy import Phonopy
+    from phonopy.interface.wien2k import parse_set_of_forces
+    from phonopy.structure.atoms import PhonopyAtoms
+
+    name, S = spec["w2k"]
+    if name not in PROTOS:
+        return Out(nontrivial=False, classes=["no_such_prototype"])
+    c = build_crystal({"kind": "proto", "name": name, "key": spec["key"], "perm": False, "rot": False, "masses": False})
+    if c is None:
+        return Out(nontrivial=False, classes=["discarded"])
+    ph = Phonopy(c["cell"], supercell_matrix=np.array(S), log_level=0)
+    sc = ph.supercell
+    n = len(sc)
+    fc = springs_fc(sc)
+    ph.generate_displacements(distance=0.02)
+    L = sc.cell
+    red = L / np.linalg.norm(L, axis=1)[:, None]
+    disps, files, truth = [], [], []
+    with TmpCwd():
+        for k, d in enumerate(ph.dataset["first_atoms"][:3]):
+            u = np.zeros((n, 3))
+            u[d["number"]] = d["displacement"]
+            F = -np.einsum("ijab,jb->ia", fc, u)
+            dcell = PhonopyAtoms(symbols=sc.symbols, cell=L, positions=sc.positions + u)
+            rots, trans = own_ops(dcell)
+            P = perms_for_ops(dcell.scaled_positions, L, rots, trans)
+            orbit_of = np.array([min(int(p[i]) for p in P) for i in range(n)])
+            reps = [int(np.nonzero(orbit_of == o)[0][-1]) for o in sorted(set(orbit_of.tolist()))]  # LAST member of each orbit
+            lines = []
+            for j, a in enumerate(reps):
+                x = dcell.scaled_positions[a] % 1.0
+                x = np.where(x > 0.999995, 0.0, x)
+                lines.append(":POS%03d: ATOM %4d POSITION = %7.5f %7.5f %7.5f  MULTIPLICITY =  1  ZZ= 1.000  X" % (j + 1, j + 1, x[0], x[1], x[2]))
+            for j, a in enumerate(reps):
+                comp = F[a] @ np.linalg.inv(red)  # components along the lattice-vector directions
+                lines.append((":FGL%03d:" % (j + 1)).ljust(29) + "%16.9f%16.9f%16.9f total forces" % tuple(comp))
+            fn = "case-%d.scf" % k
+            open(fn, "w").write("\n".join(lines) + "\n")
+            files.append(fn)
+            disps.append(u)
+            truth.append(F)
+        buf = io.StringIO()
+        with contextlib.redirect_stdout(buf):
+            got = parse_set_of_forces(disps, files, sc)
+    classes = ["mode:wien2k_sym", "proto:" + name, "Lsym" if np.allclose(L, L.T, atol=1e-8) else "Lnonsym"]
+    if not got:
+        return Out(ok=False, classes=classes, msg="WIEN2k symmetry-reduced forces of %s %s were refused: %s" % (name, S, buf.getvalue()[-300:]))
+    nreduced = 0
+    for k, (g, t) in enumerate(zip(got, truth)):
+        err = np.abs(np.array(g) - t).max()
+        if err > 1e-6 * max(1.0, np.abs(t).max()):
+            return Out(ok=False, classes=classes, msg="forces expanded from a symmetry-reduced WIEN2k case.scf (%s, supercell %s) differ from the true forces by %.3e "
+                       "(max |F| %.3e)" % (name, S, err, np.abs(t).max()))
+    return Out(ok=True, nontrivial=True, classes=classes)
+
+
 def run_force_sets(spec):
     import contextlib
     import io
@@ -494,6 +560,8 @@ def run_force_sets(spec):
     rng = rng_from(spec["key"], 9)
     if spec["mode"].startswith("lammps"):
         return _force_sets_lammps(spec, cell, rng)
+    if spec["mode"] == "wien2k_sym":
+        return _force_sets_wien2k(spec, rng)
     ph = Phonopy(cell, supercell_matrix=[2, 1, 1], log_level=0)
     ph.generate_displacements(distance=0.03)
     scs = ph.supercells_with_displacements
